@@ -130,7 +130,8 @@ def main(argv=None):
         if args.findings_json:
             import dataclasses
             with open(args.findings_json, 'w', encoding='utf-8') as f:
-                json.dump([dataclasses.asdict(x) for r in results for x in r.findings], f)
+                known = report.load_known_findings()
+                json.dump([dict(dataclasses.asdict(x), known=x.key(args.prop) in known) for r in results for x in r.findings], f)
         if args.replay:
             hit = [x for r in results for x in r.findings
                    if (x.rule, x.construct, x.detail) == (v['rule'], v['construct'], v['detail'])]
